@@ -28,6 +28,7 @@ uint64_t vf_concretize(uint64_t v) { return v; }
 int vf_spawn(void (*fn)(void *), void *arg) { fn(arg); return 1; } /* native replay runs threads sequentially */
 void vf_join(void) {}
 void vf_yield(void) {}
+uint32_t vf_choose(uint32_t n, const char *) { return (uint32_t)(next() % n); }
 void xassert(const char *msg, const char *file, int line) { printf("NATIVE-XASSERT: %s (%s:%d)\n", msg, file, line); fflush(stdout); _Exit(1); }
 }
 void fatal(const char *m) { printf("NATIVE-FATAL: %s\n", m); fflush(stdout); _Exit(1); }
